@@ -934,7 +934,7 @@ class StridedInterval:
         return self // other  # decline to involve floating point numbers at ALL
 
     def __neg__(self) -> StridedInterval:
-        return self.bitwise_not()
+        return self.neg()
 
     def __invert__(self) -> StridedInterval:
         return self.bitwise_not()
